@@ -157,7 +157,7 @@ let parse_event (tok : string) : event =
   | "RC" -> ERunCall (nn rest) | "SC" -> EStopCall (nn rest) | "ST" -> EStopRet (nn rest)
   | "N" -> ECount (nn rest)
   | "S" ->
-    EState (match rest with "R" -> CRunning | "L" -> CReloading | "P" -> CStopping | "D" -> CStopped | _ -> COther)
+    EState (match rest with "R" -> CRunning | "L" -> CReloading | "P" -> CStopping | "D" -> CStopped | "?Error" -> CError | _ -> COther)
   | "RR" -> ERunReturn
   | _ -> failwith ("event " ^ tok)
 
